@@ -129,6 +129,8 @@ func vf38Exec(work string, windowMs int, r *vf38Run) {
 			} else {
 				err = os.WriteFile(target, content, 0o644)
 			}
+		case "Touch":
+			err = os.WriteFile(filepath.Join(dir, "sibling.txt"), content, 0o644)
 		case "Remove":
 			err = os.Remove(target)
 		case "Swap":
